@@ -310,6 +310,12 @@ Fixpoint all_ok (xs : list (res * st)) (os : list obs) : bool :=
   | _, _ => false
   end.
 
+(* entry constructors used by the harness when printing dumps (monomorphic: much cheaper to elaborate than tuples) *)
+Definition tl (a b c : nat) : nat * nat * nat := (a, b, c).
+Definition tc (a b : nat) (c : Z) : nat * nat * Z := (a, b, c).
+Definition tm (a b : nat) (c : bool) : nat * nat * bool := (a, b, c).
+Definition tp (a : nat) (c : Z) : nat * Z := (a, c).
+
 (* a case = registry, history, observations on the implementation (working tree = Fixed) *)
 Definition case := (world * list op * list obs)%type.
 Definition case_ok (c : case) : bool :=
